@@ -90,11 +90,11 @@ let () = run_lines (fun toks ->
   | "fixed" :: rest ->
     let (p, r, _) = parse_sys rest in
     let v = string_of_z (Model.fixed_RnsToRing p r) in v ^ " " ^ v
-  | [("cra" | "cra3") as kw; variant; m; d; a; e] ->
+  | ["cra"; variant; m; d; a; e] ->
     let f = (match variant with
         | "reduce" -> Model.cra_reduce | "noreduce" -> Model.cra_noreduce | "fixed" -> Model.cra_reduce_fixed
         | s -> failwith ("variant " ^ s)) in
-    let v = string_of_z (f (zs m) (zs d) (zs a) (zs e)) in if kw = "cra3" then v ^ " " ^ v ^ " " ^ v else v ^ " " ^ v
+    let v = string_of_z (f (zs m) (zs d) (zs a) (zs e)) in v ^ " " ^ v
   | "lift" :: variant :: rest ->
     let (p, r, _) = parse_sys rest in
     let f = (match variant with "reduce" -> Model.cra_reduce | "fixed" -> Model.cra_reduce_fixed | s -> failwith ("variant " ^ s)) in
